@@ -78,6 +78,7 @@ struct Recipe {
     api_scrollback: bool,
     sync_each: bool,
     steps: u64,
+    placement: bool,
 }
 
 const MOVE_SETUP: &[(Kind, u64)] = &[
@@ -101,6 +102,7 @@ fn recipe_for(prop: &str) -> Recipe {
         api_scrollback: false,
         sync_each: true,
         steps: 12,
+        placement: true,
     };
     match prop {
         "C05" => Recipe {
@@ -397,6 +399,10 @@ fn run_generic(ctx: &mut Ctx, n_cases: u64) {
                 for _ in 0..n {
                     let k = g.pick_kind(rec.setup);
                     let bytes = g.chunk(k);
+                    ctx.sess.process_setup(&bytes);
+                }
+                if rec.placement && g.rng.chance(1, 2) {
+                    let bytes = g.placement();
                     ctx.sess.process_setup(&bytes);
                 }
                 api_noise(ctx, &rec, true);
